@@ -168,7 +168,11 @@ impl Gen {
     /// one branch: a clause (list of goals)
     fn branch(&self, r: &mut Rng, tag: isize) -> Vec<PG> {
         let sg = SearchGen { nq: self.nq, nh: self.nh, dfs_safe: true, committed: false, calls: true };
-        match r.below(12) {
+        match r.below(14) {
+            // a clause that fails statically (a literal `false`, alone or after a goal: `Conj::new` folds it to `fail`):
+            // the disjunction must keep its other clauses (seeded change C07-d)
+            12 => vec![PG::Fail],
+            13 => vec![PG::Eq(self.q(r), T::Num(tag)), PG::Fail],
             // infinite producers, tagged so that their answers are recognisable
             0 | 1 => vec![PG::Always, PG::Eq(self.q(r), T::Num(tag))],
             2 => vec![PG::Anyo(Box::new(PG::Conde(vec![vec![PG::Eq(self.q(r), T::Num(tag))], vec![PG::Eq(self.q(r), T::Num(tag + 10))]])))],
@@ -187,7 +191,7 @@ impl Gen {
         }
     }
     fn disj(&self, r: &mut Rng, depth: usize, tag: &mut isize) -> PG {
-        let k = 2 + r.below(2);
+        let k = 2 + r.below(3);
         let mut cs: Vec<Vec<PG>> = vec![];
         for _ in 0..k {
             *tag += 1;
@@ -243,6 +247,9 @@ fn corpus() -> Vec<&'static str> {
         "prog 2 1 6 - conde 2 1 call member 2 i1 v0 1 call member 2 i2 v0",
         "prog 1 1 8 - loop 1 1 conde 3 1 eq i1 v0 1 eq i2 v0 1 eq i3 v0",
         "prog 1 1 12 - loop 1 1 conde 2 1 eq v0 i1 2 always eq v0 i2",
+        // a statically failing clause in third / fourth position (C07-d)
+        "prog 1 1 6 - conde 3 1 eq v0 i1 1 eq v0 i2 1 fail",
+        "prog 1 1 8 - conde 4 2 always eq v0 i1 1 eq v0 i2 1 conde 3 1 eq v0 i3 1 eq v0 i4 2 eq v0 i5 fail 2 eq v0 i6 fail",
     ]
 }
 
